@@ -25,6 +25,14 @@
 //   - `x++`, `x--` on tracked variables;
 //   - a `:=` that would shadow a tracked variable of an enclosing scope is a translation failure
 //     (the let-chain would leak the inner value).
+//
+// Group "Glue" (LogicGlue.lean; obligations in Proofs/GeneratedLogicGlue.lean) adds three constructs:
+//   - `effcalls`: a call statement `recv.F(a, b, …)` whose printed callee is listed becomes the effect
+//     `eff := eff ++ [("F", a', b', …)]` with every argument translated by the expression table (so that
+//     `p.Pot+p.Wager` → `p.Pot` changes the generated definition rather than making it unknown);
+//   - `continue` in the body of the `loop` ends the iteration: the `result` at that point;
+//   - an entry `<header> { … }` of `around` stands for another top-level loop with that header whose
+//     body is the subject of another spec (position and header pinned, body not).
 package main
 
 import (
@@ -54,9 +62,10 @@ type spec struct {
 	calls            map[string][2]string // printed call statement -> (tracked variable, Lean term assigned to it)
 	stmts            map[string][2]string // printed statement (any kind) -> (tracked variable, Lean term assigned to it)
 	guards           map[string][]string  // printed statement -> (Lean condition, Lean result when it holds[, tracked variable, Lean term assigned otherwise])
-	group            string               // output file: "" -> Logic.lean (hand evaluation, betting), "Flow" -> LogicFlow.lean, "SM" -> LogicSM.lean
+	group            string               // output file: "" -> Logic.lean (hand evaluation, betting), "Flow" -> LogicFlow.lean, "SM" -> LogicSM.lean, "Glue" -> LogicGlue.lean
 	loop             string               // if set: translate the BODY of the top-level loop with this printed header (one iteration)
 	around           []string             // with `loop`: the other top-level statements of the function, printed, in order
+	effcalls         map[string]string    // [Glue] printed callee of a call statement -> effect name; the arguments are translated by `expr`
 }
 
 var fset = token.NewFileSet()
@@ -220,8 +229,24 @@ func (t *tr) block(stmts []ast.Stmt, k string, own, outer scope) string {
 		if c, ok := t.s.calls[pr(x.X)]; ok {
 			return "(let " + leanVar(c[0]) + " := " + c[1] + "\n " + t.block(rest, k, own, outer) + ")"
 		}
+		// [Glue] effcalls: the call with translated arguments is appended to the effect list `eff`
+		if ce, ok := x.X.(*ast.CallExpr); ok {
+			if name, ok := t.s.effcalls[pr(ce.Fun)]; ok && !ce.Ellipsis.IsValid() {
+				term := "\"" + name + "\""
+				for _, a := range ce.Args {
+					term += ", " + t.expr(a)
+				}
+				return "(let v_eff := (v_eff ++ [(" + term + ")])\n " + t.block(rest, k, own, outer) + ")"
+			}
+		}
 		t.fail = append(t.fail, "call: "+pr(x))
 		return "UNTRANSLATED"
+	case *ast.BranchStmt:
+		// [Glue] `continue` directly in the body of the translated loop: the iteration ends here
+		// (nested loops are never entered by `block`, so an unlabelled `continue` belongs to that loop)
+		if x.Tok == token.CONTINUE && x.Label == nil && t.s.loop != "" {
+			return t.s.result
+		}
 	case *ast.AssignStmt:
 		if len(x.Lhs) == 1 && len(x.Rhs) == 1 {
 			l := pr(x.Lhs[0])
@@ -353,6 +378,12 @@ func (t *tr) loopBody(stmts []ast.Stmt) []ast.Stmt {
 			found++
 			continue
 		}
+		if b != nil { // [Glue] another top-level loop, listed in `around` as `<header> { … }`: body left to its own spec
+			if h := strings.TrimSuffix(pr(st), pr(b)) + "{ … }"; contains(t.s.around, h) {
+				others = append(others, h)
+				continue
+			}
+		}
 		others = append(others, pr(st))
 	}
 	if found != 1 {
@@ -364,6 +395,15 @@ func (t *tr) loopBody(stmts []ast.Stmt) []ast.Stmt {
 		return []ast.Stmt{&ast.BadStmt{}}
 	}
 	return body
+}
+
+func contains(l []string, s string) bool {
+	for _, x := range l {
+		if x == s {
+			return true
+		}
+	}
+	return false
 }
 
 // add registers specs under an output group (one generated file, one proof file per group, so that a
@@ -1050,6 +1090,72 @@ func init() {
 	}
 }
 
+// ---- [Glue] settlement.go, pot.go, power.go: what feeds the settlement, the pots and the reported hands ----
+
+// the fields of `PlayerState` an iteration may read: all of them are parameters of the translated iteration, so
+// that reading another field than the model does changes the definition (rather than making it unknown)
+const playerFieldParams = "(idx : Nat) (bankroll initial stack pot wager : Int) (fold acted : Bool)"
+
+var playerFields = map[string]string{"p.Idx": "idx", "p.Bankroll": "bankroll", "p.InitialStackSize": "initial", "p.StackSize": "stack",
+	"p.Pot": "pot", "p.Wager": "wager", "p.Fold": "fold", "p.Acted": "acted"}
+
+const combCardsLoop = `for _, c := range ps.Cards { p.Combination.Cards = append(p.Combination.Cards, c.ToString()) }`
+
+func init() {
+	add("Glue",
+		// settlement.go `CalculateGameResults`: two loops, one spec each; the other loop is pinned by its header
+		&spec{
+			file: "settlement.go", recv: "game", name: "CalculateGameResults", leanName: "calcResultsPotStep",
+			params: "{L : Type} (level wager total : Int) (levels : L)", resultType: "List (String × Int × L)",
+			loop: "for _, pot := range g.gs.Status.Pots",
+			around: []string{"r := settlement.NewResult()", "for _, p := range g.gs.Players { … }", "r.Calculate()",
+				"g.gs.Result = r", "return nil"},
+			tracked:  map[string]string{"eff": "[]"},
+			exprs:    map[string]string{"pot.Level": "level", "pot.Wager": "wager", "pot.Total": "total", "pot.Levels": "levels"},
+			effcalls: map[string]string{"r.AddPot": "AddPot"},
+			result:   "v_eff",
+		},
+		&spec{
+			file: "settlement.go", recv: "game", name: "CalculateGameResults", leanName: "calcResultsStep",
+			params: playerFieldParams + " (power : Int)", resultType: "List (String × Nat × Int)",
+			loop: "for _, p := range g.gs.Players",
+			around: []string{"r := settlement.NewResult()", "for _, pot := range g.gs.Status.Pots { … }", "r.Calculate()",
+				"g.gs.Result = r", "return nil"},
+			tracked:  map[string]string{"eff": "[]"},
+			exprs:    merge(playerFields, map[string]string{"p.Combination.Power": "power"}),
+			effcalls: map[string]string{"r.AddPlayer": "AddPlayer", "r.UpdateScore": "UpdateScore"},
+			result:   "v_eff",
+		},
+		// pot.go `updatePots`
+		&spec{
+			file: "pot.go", recv: "game", name: "updatePots", leanName: "updatePotsStep",
+			params: playerFieldParams, resultType: "List (String × Int × Nat × Bool)",
+			loop:     "for _, p := range g.gs.Players",
+			around:   []string{"ll := pot.NewLevelList()", "g.gs.Status.Pots = ll.GetPots()", "return nil"},
+			tracked:  map[string]string{"eff": "[]"},
+			exprs:    playerFields,
+			effcalls: map[string]string{"ll.AddContributor": "AddContributor"},
+			result:   "v_eff",
+		},
+		// power.go `UpdateCombinationOfAllPlayers`: the three fields of `p.Combination` after one iteration, as a
+		// function of their old values and of the power state `ps` (category symbol, cards, score, category as a
+		// number); `src` records where `ps` comes from.  Parametric in the types of the symbol, the cards and the score.
+		&spec{
+			file: "power.go", recv: "game", name: "UpdateCombinationOfAllPlayers", leanName: "updateCombStep",
+			params:     "{T C W : Type} (hasComb : Bool) (type0 : T) (cards0 : List C) (power0 : W) (psType : T) (psCards : List C) (psScore psCat : W)",
+			resultType: "String × T × List C × W",
+			loop:       "for _, p := range g.gs.Players", around: []string{"return nil"},
+			tracked: map[string]string{"src": "\"\"", "p.Combination.Type": "type0", "p.Combination.Cards": "cards0",
+				"p.Combination.Power": "power0"},
+			exprs: map[string]string{"p.Combination == nil": "(!hasComb)", "p.Combination != nil": "hasComb", "ps.Combination": "psCat", "combination.CombinationSymbol[ps.Combination]": "psType",
+				"make([]string, 0)": "([] : List C)", "ps.Score": "psScore"},
+			stmts: map[string][2]string{"ps := g.CalculatePlayerPower(p)": {"src", "\"CalculatePlayerPower(p)\""},
+				combCardsLoop: {"p.Combination.Cards", "(v_p_Combination_Cards ++ psCards)"}},
+			result: "(v_src, v_p_Combination_Type, v_p_Combination_Cards, v_p_Combination_Power)",
+		},
+	)
+}
+
 func main() {
 	root := "/repo"
 	out := "/verif/lean/Pokerface/Generated"
@@ -1059,7 +1165,7 @@ func main() {
 	if len(os.Args) > 2 {
 		out = os.Args[2]
 	}
-	for _, group := range []string{"", "Flow", "SM"} {
+	for _, group := range []string{"", "Flow", "SM", "Glue"} {
 		writeGroup(root, out, group)
 	}
 }
